@@ -17,7 +17,8 @@ import (
 	"golang.org/x/tools/go/ssa/ssautil"
 )
 
-const repoDir = "/repo"
+// repoDir is the tree under verification (VSYM_REPO overrides it: used to try seeded changes in a scratch worktree).
+var repoDir = envOr("VSYM_REPO", "/repo")
 const modPath = "github.com/database64128/shadowsocks-go"
 
 var verifDir = "/verif"
